@@ -20,6 +20,15 @@ def header_only_definition():
     return definitions.XtcePacketDefinition([root])
 
 
+def header_definition_not_recognising(apid):
+    """abstract header root with one concrete child for every APID except `apid`: packets of that APID are unrecognized"""
+    from space_packet_parser.xtce import comparisons, containers, definitions
+    child = containers.SequenceContainer("KNOWN", [], base_container_name="CCSDSPacket",
+                                         restriction_criteria=[comparisons.Comparison(str(apid), "PKT_APID", "!=")])
+    root = containers.SequenceContainer("CCSDSPacket", header_params(), abstract=True, inheritors=["KNOWN"])
+    return definitions.XtcePacketDefinition([root, child])
+
+
 def mk_packet(data, apid=0, flags=3, seq=0, version=0, typ=0, shf=0):
     from space_packet_parser import packets
     return bytes(packets.create_ccsds_packet(bytes(data), version_number=version, type=typ, secondary_header_flag=shf,
